@@ -157,6 +157,11 @@ fn one_case(rep: &Report, case: &Case, rng: &mut Rng, all: &[Rule], thorough: bo
                             let wrong: &[dfv::value::Row] = if variant_ok { &base.exec.rows } else { &o.exec.rows };
                             match dfv::cases::explain_by_known_deviation(case, wrong) {
                                 Some(k) => format!("{k}/{}", if variant_ok { "unoptimized-side" } else { "optimized-side" }),
+                                // the independent reference sides with the optimized plan: the baseline (analyzer +
+                                // decorrelation only) is the wrong one. Root cause seen on the unchanged tree: the
+                                // null-aware anti join of NOT IN only works once extract_equijoin_predicate has
+                                // turned the comparison into a join key; without it NOT IN silently runs as NOT EXISTS
+                                None if variant_ok && case.sql.contains("NOT IN (SELECT") => "not-in-null-awareness-needs-equijoin-extraction/unoptimized-side".to_string(),
                                 None => format!("results-changed/{name}"),
                             }
                         }
